@@ -10,6 +10,7 @@ Property theorems only (model: `QG/Model/RunValidate.lean`; helper lemmas: `QG/L
 *every* such vector, so they hold for every gate set, circuit class and shot count.  Python dicts are item lists in
 insertion order; keys are bit strings (`List Bool`, first character first, `true` = '1').
 
+Part 0  `_process_layout`                              (`layout_ascending_and_covers`)
 Part 1  keys and values of `_measurament`            (`keys_exact`, `keys_first_appearance`, `keys_repeated_qubit`,
                                                        `keys_not_exact_of_repeat`, `values_marginal`)
 Part 2  normalisation                                  (`values_nonneg_sum_one`, `nonfinite_is_assertion`, `nan_is_assertion`)
@@ -21,6 +22,18 @@ Part 5  the pinned tree before repair D20              (`unrepaired_agrees_on_ar
 -/
 namespace QG.C14
 open QG.Model.RunValidate QG.Lemmas.RunValidate
+
+/-! ## Part 0 — `_process_layout` -/
+
+/-- **The processed layout** (since repair D6: `used_q.sort()`): strictly ascending qubit labels, exactly the qubits
+the loop recorded as used (first-touch order forgotten), and every measured qubit belongs to it — for every circuit. -/
+theorem layout_ascending_and_covers (data : List Instr) :
+    (processLayout data).1.Pairwise (· < ·) ∧
+    (∀ q, q ∈ (processLayout data).1 ↔ q ∈ (layoutLoop data).1) ∧
+    (processLayout data).1.length = (layoutLoop data).1.length ∧
+    (processLayout data).2 = (layoutLoop data).2 ∧
+    (∀ t ∈ (processLayout data).2, t.1 ∈ (processLayout data).1) :=
+  ⟨processLayout_ascending data, mem_processLayout data, processLayout_length data, rfl, (processLayout_inv data).2⟩
 
 /-! ## Part 1 — keys and values of `_measurament` -/
 
@@ -678,17 +691,18 @@ theorem unrepaired_non_array_psi0 (L : Nat) (psi0 shots device nqubit : PyVal) (
 
 /-! ## Non-vacuity: concrete objects meeting the hypotheses -/
 
-/-- a 3-qubit register in which qubits 2, 0 are used (in this order of first touch) and 0, 2 measured into clbits 1, 0 -/
+/-- a 3-qubit register in which qubits 2, 0 are used (in this order of first touch; the layout is sorted to [0, 2]) and
+0, 2 measured into clbits 1, 0 -/
 private def exData : List Instr := [.gate [2], .delay [1], .gate [2, 0], .gate [0, 1, 2], .measure 0 1, .measure 2 0]
 
-example : processLayout exData = ([2, 0], [(0, 1), (2, 0)]) := by decide
+example : layoutLoop exData = ([2, 0], [(0, 1), (2, 0)]) ∧ processLayout exData = ([0, 2], [(0, 1), (2, 0)]) := by decide
 
 /-- hypotheses of `keys_exact` / `values_marginal` / `values_nonneg_sum_one`, and what the model returns -/
 example : let lm := processLayout exData
     (∀ t ∈ lm.2, t.1 ∈ lm.1) ∧ (lm.2.map Prod.fst).Nodup ∧ ([1, 2, 3, 4] : List ℚ).length = 2 ^ lm.1.length ∧
     (∀ x ∈ ([1, 2, 3, 4] : List ℚ), 0 ≤ x) ∧ 0 < ([1, 2, 3, 4] : List ℚ).sum ∧
     (measurement (fieldNum ℚ) [1, 2, 3, 4] lm.2 lm.1.length lm.1).map (·.map Prod.fst) =
-      .ok [[false, false], [true, false], [false, true], [true, true]] := by
+      .ok [[false, false], [false, true], [true, false], [true, true]] := by
   refine ⟨by decide, by decide, by decide, by norm_num, by norm_num, by decide⟩
 
 /-- hypotheses of `ValidArgs` (with `nqubit` = number of used qubits); `shots = True` is accepted as one shot -/
